@@ -5,10 +5,11 @@
 T=${1:-quick}; shift
 cd /verif
 OUT=seeded/RESULTS.$T.txt
-WT=/tmp/wt_matrix
-git -C /repo worktree remove --force $WT 2>/dev/null; git -C /repo worktree prune
+# (a worktree and an output directory of its own per invocation: two matrix runs must never share a tree)
+WT=$(mktemp -d /tmp/wt_matrix.XXXXXX); rmdir $WT
+MOUT=$(mktemp -d /tmp/matrix_out.XXXXXX)
+git -C /repo worktree prune
 git -C /repo worktree add -q --detach $WT HEAD || exit 1
-mkdir -p /tmp/matrix_out
 [ $# -eq 0 ] && set -- $(ls seeded | grep -v RESULTS)
 for s in "$@"; do
   d=/verif/seeded/$s
@@ -19,10 +20,11 @@ for s in "$@"; do
   if ! git -C $WT apply $d/patch.diff 2>/dev/null; then echo "$s APPLY-FAIL" | tee -a $OUT; continue; fi
   line="$s"
   for id in $prop $also; do
-    VERIF_STOP_AT_FIRST=1 VERIF_REPO=$WT VERIF_OUT=/tmp/matrix_out timeout 1500 ./check $id $T > /tmp/seeded_$s.$id.log 2>&1; rc=$?
-    msg=$(grep -A1 -m1 VIOLATION /tmp/seeded_$s.$id.log | tail -1 | cut -c1-140)
+    VERIF_STOP_AT_FIRST=1 VERIF_REPO=$WT VERIF_OUT=$MOUT timeout 1500 ./check $id $T > $MOUT/seeded_$s.$id.log 2>&1; rc=$?
+    msg=$(grep -A1 -m1 VIOLATION $MOUT/seeded_$s.$id.log | tail -1 | cut -c1-140)
     line="$line | $id rc=$rc $msg"
   done
   echo "$line" | tee -a $OUT
 done
 git -C /repo worktree remove --force $WT
+rm -rf $MOUT
